@@ -238,7 +238,7 @@ def run(ctx):
                     run_case(ctx, "file", pkts, stream, k, r=r, via_def=True, sig=("viadef",))
 
     # ---- 3. chunk borders relative to packet borders -------------------------------------------------------
-    for trial in range(ctx.size(150, 40000)):
+    for trial in range(ctx.size(150, 300000)):
         item += 1
         if not ctx.mine(item):
             continue
@@ -262,7 +262,7 @@ def run(ctx):
             run_case(ctx, "socketpair", pkts, stream, k, r=rng.choice([None, 1, 7, 4096]), chunks=sizes,
                      sig=("socketpair", "k" + str(k)))
     # ---- 4. random header words / many packets -----------------------------------------------------------
-    for trial in range(ctx.size(40, 8000)):
+    for trial in range(ctx.size(40, 40000)):
         item += 1
         if not ctx.mine(item):
             continue
